@@ -19,5 +19,6 @@ for p in ${@:-C01 C02 C03 C04 C05 C06 C07 C08 C09 C10 C11 C12 C13 C14 C15 C16 C1
 done
 $BIN/llvm-profdata merge -sparse $COV/prof/*.profraw -o $COV/all.profdata
 $BIN/llvm-cov report $VERIF_HARNESS_DEBUG -instr-profile=$COV/all.profdata /repo/src 2>/dev/null | tee $COV/report.txt | tail -40
-$BIN/llvm-cov show $VERIF_HARNESS_DEBUG -instr-profile=$COV/all.profdata /repo/src -show-line-counts-or-regions 2>/dev/null > $COV/show.txt
-echo "full listing: $COV/show.txt"
+$BIN/llvm-cov export $VERIF_HARNESS_DEBUG -instr-profile=$COV/all.profdata /repo/src 2>/dev/null > $COV/export.json
+python3 /verif/tools/cov_uncovered.py $COV/export.json > $COV/uncovered.txt
+echo "uncovered regions: $COV/uncovered.txt"
